@@ -206,11 +206,12 @@ Proof.
     | context [valid_pick _ _ _ _ (msgs ?s2) _ _] => set (st2 := s2) in *
     end.
     assert (P2 : pres (msgs s) (msgs st2)).
-    { subst st2. destruct fl.
-      - eapply pres_trans; [|apply prune_pres]. simpl. apply sweep_pres.
-      - destruct (sql_sweep_due now (last_sweep (prune c now (o_gone o) s))).
-        + simpl. eapply pres_trans; [apply prune_pres | apply sweep_pres].
-        + apply prune_pres. }
+    { (* written so that it does not depend on the order of sweep and prune in either flavour *)
+      subst st2. destruct fl; [| destruct (sql_sweep_due now (last_sweep (prune c now (o_gone o) s)))]; simpl;
+        first [ apply prune_pres
+              | eapply pres_trans; [apply prune_pres | apply sweep_pres]
+              | eapply pres_trans;
+                [apply sweep_pres | apply (prune_pres c now (o_gone o) (set_msgs s (sweep now (msgs s))))] ]. }
     destruct (valid_pick now route target (clamp_batch batch) (msgs st2) (issued st2) (o_picked o)); simpl in H.
     + apply (pres_trans _ _ _ P2 (apply_pm_pres _ _ (pm_lease_pres now (eff_ttl ttl) (o_picked o)))). auto.
     + apply P2. auto.
